@@ -347,11 +347,44 @@ func (x *run) checkOrder(ids []string, ds []float64) bool {
 	return ok
 }
 
-// ranks: order-preserving map float -> small integer for the model's Z distances
+// ranks: order-preserving map float -> small integer for the model's Z distances (exact: two
+// different floats get two different ranks).
 func ranks(vals []float64) func(float64) string {
 	all := append([]float64{}, vals...)
 	sort.Float64s(all)
 	return func(v float64) string { return strconv.Itoa(1 + sort.SearchFloat64s(all, v)) }
+}
+
+// canonOrder prepares an implementation reply for the comparison with the model.  The model's
+// output is sorted by construction; the implementation's order can contain inversions at
+// rounding level (open known finding C13-rounding-noise, reported by checkOrder under
+// knn-order-rounding-noise).  If every inversion is of that kind (the two distances agree to
+// relative 1e-8, the rule of the known finding) the reply is stably sorted by distance so that
+// the known finding is not reported a second time as a model difference; an inversion beyond that
+// noise makes ok false: checkOrder has reported it as knn-order and the reply is not compared.
+func canonOrder(ids []string, ds []float64) (cids []string, cds []float64, ok bool) {
+	for i := 0; i+1 < len(ds); i++ {
+		if ds[i+1] < ds[i] && !noise(ds[i], ds[i+1]) {
+			return nil, nil, false
+		}
+	}
+	idx := make([]int, len(ids))
+	for i := range idx {
+		idx[i] = i
+	}
+	sort.SliceStable(idx, func(a, b int) bool { return ds[idx[a]] < ds[idx[b]] })
+	// a stable sort of a sequence whose inversions are all noise-level moves an element only
+	// across neighbours it is noise-close to, provided the noisy runs are short; verify it:
+	for to, from := range idx {
+		if !noise(ds[from], ds[to]) {
+			return nil, nil, false
+		}
+	}
+	cids, cds = make([]string, len(ids)), make([]float64, len(ids))
+	for i, j := range idx {
+		cids[i], cds[i] = ids[j], ds[j]
+	}
+	return cids, cds, true
 }
 
 // modelTrees: the items as a one-leaf tree and as a two-level tree whose node keys are the real
@@ -387,12 +420,20 @@ func (x *run) modelTrees(ids []string, extra []float64) (flat, two string, rank 
 		}
 		a, b, c, dd := verifapi.RtreeRect(u[0], u[1], u[2], u[3])
 		key := dist(x.q, rect{a, b, c, dd})
+		mkey := key
 		for _, i := range order[s:e] {
 			x.r.Dist("hlb-group-item")
 			if key > d[i] {
 				lbFailure(x.r, "client-built node over real objects", x.q, rect{a, b, c, dd}, x.h.objs[ids[i]].r, key, d[i])
+				// reported above (rounding noise: known finding; beyond noise: knn-lb-not-monotone).
+				// At rounding level the model is fed the contained distance instead, so that the
+				// known finding is not reported again as a model difference.
+				if noise(key, d[i]) && d[i] < mkey {
+					mkey = d[i]
+				}
 			}
 		}
+		key = mkey
 		vals = append(vals, key)
 		groups = append(groups, group{key, order[s:e]})
 	}
@@ -457,6 +498,10 @@ func sameByDistance(implIDs []string, implRank []string, mod string) bool {
 }
 
 func (x *run) checkModel(ids []string, ds []float64) {
+	ids, ds, ok := canonOrder(ids, ds)
+	if !ok {
+		return // a real inversion: reported by checkOrder as knn-order
+	}
 	sids := x.h.spatial()
 	flat, two, rank, pos := x.modelTrees(sids, nil)
 	implPos := make([]string, len(ids))
@@ -658,12 +703,43 @@ func (x *run) blackBoxQuery(c *srv.Conn, rng *rand.Rand, key string, sample bool
 			flat, _, rank, pos := x.modelTrees(sids, []float64{rad})
 			mod := x.drv.Ask(fmt.Sprintf("nearby %s 0 %s - %s", rank(rad), big, flat))
 			parts := strings.SplitN(mod, " ", 2)
-			implPos, implRank := make([]string, len(rr.ids)), make([]string, len(rr.ids))
-			for i, id := range rr.ids {
-				implPos[i] = strconv.Itoa(pos[id])
-				implRank[i] = rank(dist(x.q, x.h.objs[id].r))
+			// objects whose distance agrees with the radius to within rounding noise may fall on
+			// either side of the cut: left out of the comparison on both sides (the direct oracle
+			// above uses the stricter 1e-9 rule)
+			nearRad := map[string]bool{}
+			for _, id := range sids {
+				if noise(dist(x.q, x.h.objs[id].r), rad) {
+					nearRad[strconv.Itoa(pos[id])] = true
+				}
 			}
-			if len(parts) != 2 || parts[0] != strconv.FormatInt(rr.cur, 10) || !sameByDistance(implPos, implRank, parts[1]) {
+			var implPos, implRank []string
+			rds := make([]float64, len(rr.ids))
+			for i, id := range rr.ids {
+				rds[i] = dist(x.q, x.h.objs[id].r)
+			}
+			cids, cds, okc := canonOrder(rr.ids, rds)
+			if !okc {
+				continue // a real inversion: reported as knn-order / knn-radius-prefix
+			}
+			for i, id := range cids {
+				if p := strconv.Itoa(pos[id]); !nearRad[p] {
+					implPos = append(implPos, p)
+					implRank = append(implRank, rank(cds[i]))
+				}
+			}
+			modItems := "-"
+			if len(parts) == 2 && parts[1] != "-" {
+				var keep []string
+				for _, tok := range strings.Split(parts[1], ",") {
+					if !nearRad[strings.SplitN(tok, ":", 2)[0]] {
+						keep = append(keep, tok)
+					}
+				}
+				if len(keep) > 0 {
+					modItems = strings.Join(keep, ",")
+				}
+			}
+			if len(parts) != 2 || parts[0] != strconv.FormatInt(rr.cur, 10) || !sameByDistance(implPos, implRank, modItems) {
 				x.fail("correspondence", "knn-model-radius", fmt.Sprintf("NEARBY with radius %s differs from Model.Knn.nearby_query", rs), map[string]interface{}{"radius": rs},
 					map[string]interface{}{"cursor": rr.cur, "positions": implPos, "ranks": implRank}, mod)
 			}
